@@ -176,7 +176,7 @@ class LiveAgent(object):
         return text
 
     def answer(self, index, prompt):
-        label, offered = runner23.parse_prompt(prompt)
+        label, offered = runner23.parse_prompt(prompt, self.labels)
         metric = self.labels.get(label)
         if label is not None and label == self.prev_label:
             self.same += 1
@@ -205,9 +205,11 @@ class LiveAgent(object):
         if metric is None or metric not in self.sp.values:
             # cannot tell what is being asked: keep the session moving, count it
             self.unobservable += 1
-            if self.same >= 6:
+            self.blind_streak = getattr(self, "blind_streak", 0) + 1
+            if self.same >= 6 or self.blind_streak >= 8:
                 return "e", ""
             return "l", (offered[0] if offered else "N")
+        self.blind_streak = 0
         if self.same >= self.sw["retry_cap"] + 8:
             # a (defective) program that refuses everything we know to be legal: end the session
             self._count("probe.gave_up")
@@ -268,8 +270,7 @@ def walk(version, labels, events):
         if ev[0] == "o":
             last_out = ev[1]
         elif ev[0] == "r":
-            prompt = last_out.rsplit("\n", 1)[-1]
-            label, offered = runner23.parse_prompt(prompt)
+            label, offered = runner23.parse_prompt(last_out, labels)
             reads.append({"label": label, "metric": labels.get(label), "kind": ev[1], "text": ev[2],
                           "offered": offered, "fresh": "\n" in last_out or not reads})
             last_out = ""
@@ -437,7 +438,7 @@ class DirectedAgent(object):
         self.tries = {}
 
     def answer(self, index, prompt):
-        label, offered = runner23.parse_prompt(prompt)
+        label, offered = runner23.parse_prompt(prompt, self.labels)
         m = self.labels.get(label)
         n = self.tries.get(label, 0)
         self.tries[label] = n + 1
@@ -523,7 +524,7 @@ class SequenceAgent(object):
         self.tries = {}
 
     def answer(self, index, prompt):
-        label, offered = runner23.parse_prompt(prompt)
+        label, offered = runner23.parse_prompt(prompt, self.labels)
         m = self.labels.get(label)
         n = self.tries.get(label, 0)
         self.tries[label] = n + 1
